@@ -1292,13 +1292,22 @@ def observe_dispatch(classes, idx, case, hn):
 
     for t in case:
         DT.process.register(classes[t - 1])(_logger(hn[t - 1], "pre"))
-    mf, tr = MF(), TR()
+    # a handler table that cannot even be built (e.g. a cached table of ANOTHER class naming handlers this class
+    # lacks) binds no type to its handler: every entry is reported as -1, like a call that raises
+    try:
+        mf = MF()
+    except Exception:  # noqa: BLE001
+        mf = None
+    try:
+        tr = TR()
+    except Exception:  # noqa: BLE001
+        tr = None
     disp = DT.__dict__["process"].dispatcher
     got = {"mf": [], "tr": [], "dt": []}
     for c in classes:
         dummy = _Dummy(c)
-        got["mf"].append(_bound(mf, dummy, by_name))
-        got["tr"].append(_bound(tr.visit, dummy, by_name))
+        got["mf"].append(_bound(mf, dummy, by_name) if mf is not None else -1)
+        got["tr"].append(_bound(tr.visit, dummy, by_name) if tr is not None else -1)
         r = disp.dispatch(c)(None, None)
         got["dt"].append(by_name.get(r, 0) if r != "ufl_type" else 0)
     return got
